@@ -21,6 +21,11 @@ import vlib
 from checks import liftlib, interp
 
 HAND = [
+    # a constraint that mentions a single name (audit C09 f1): the local and what flows into it are used in constraint generation
+    "template T(n) { signal input a; signal output out; var lc = n * a; lc === 6; out <== a; }",
+    "template T() { signal input a; signal output out; var x = a; x * x === x; out <== a; }",
+    "template T(n) { signal input a; signal output out; var t = a + n; var u = t * 2; u === 0; out <-- a; }",
+    "template T(n) { signal input a; signal output out; signal m; m <-- a; var w = m * n; w === 1; out <== a; }",
     "template T() { signal input a; signal output out; out <-- a; }",
     "template T() { signal input a; signal output out; signal m; m <-- a; out <== a; }",
     "template T() { signal input a; signal output out; signal m; m <== a; out <== a; }",
@@ -139,7 +144,9 @@ def observable(it, ssa, exported_plain):
                 out.append(("signal", ev[2], ev[3], ev[4]))
         elif ev[0] == "constraint":
             blk, si = ev[3]
-            if mentions_exported(blocks[blk][5][si][1], exported_plain):
+            # the constraint mentions an input/output signal — in its text, or through the symbolic value of a local it reads
+            # (`var lc = n * in; lc === 6;` is the constraint n*in = 6)
+            if mentions_exported(blocks[blk][5][si][1], exported_plain) or (len(ev) > 4 and set(ev[4]) & set(exported_plain)):
                 out.append(("constraint", ev[1], ev[2], blk, si))
         elif ev[0] in ("dimension", "return", "assert", "branch"):
             out.append(ev)
